@@ -74,9 +74,17 @@ class EarlyStopping(BaseModel):
 
     @field_validator("patience")
     def validate_patience(cls, v):
-        if v is not None and v < 1:
+        # None stands for the default: the stop check needs a number
+        if v is None:
+            return cls.model_fields["patience"].default
+        if v < 1:
             raise ValueError(f"\"patience\" must be greater than or equal to one. Got {v}")
         return v
+
+    @field_validator("min_delta")
+    def validate_min_delta(cls, v):
+        # None stands for the default: the stop check needs a number
+        return cls.model_fields["min_delta"].default if v is None else v
 
 
 class BaseOptimizationConfig(BaseModel):
